@@ -198,7 +198,8 @@ def _tokval(tok):
 
 
 def parse_cfg(case):
-    """cfg <src> <root> <slow> <nm> {id class iv sv th}* <now0> <ng> {g le}* <nev> events"""
+    """cfg <src> <root> <slow> <nm> {id class iv sv th}* <now0> <ng> {g le}* <nev> events
+    events: k <now> | t <now> | e | x | r <now> <n> {g draw}* | rs <now> <c|g> <n> {g draw}* | ue <now>"""
     f = case.split()
     assert f[0] == "cfg"
     c = {"src": f[1], "root": f[2], "slow": f[3] == "1", "mods": [], "groups": [], "events": []}
@@ -215,8 +216,12 @@ def parse_cfg(case):
     nev = int(f[i]); i += 1
     for _ in range(nev):
         k = f[i]
-        if k in ("k", "t"):
+        if k in ("k", "t", "ue"):
             c["events"].append((k, int(f[i + 1]))); i += 2
+        elif k == "rs":
+            n = int(f[i + 3])
+            lst = [(f[i + 4 + 2 * j], int(f[i + 5 + 2 * j])) for j in range(n)]
+            c["events"].append(("rs", int(f[i + 1]), f[i + 2], lst)); i += 4 + 2 * n
         elif k in ("e", "x"):
             c["events"].append((k,)); i += 1
         elif k == "r":
@@ -245,8 +250,10 @@ def cfg_line(src, root, slow, mods, now0, groups, events):
         toks += [str(g), str(le)]
     toks.append(str(len(events)))
     for e in events:
-        if e[0] in ("k", "t"):
+        if e[0] in ("k", "t", "ue"):
             toks += [e[0], str(e[1])]
+        elif e[0] == "rs":
+            toks += ["rs", str(e[1]), e[2], str(len(e[3]))] + ["%s %d" % (g, d) for g, d in e[3]]
         elif e[0] == "r":
             toks += ["r", str(e[1]), str(len(e[2]))] + ["%s %d" % (g, d) for g, d in e[2]]
         else:
@@ -493,3 +500,102 @@ def gen_zk(rng, idx):
             evs.append((rng.choice(["s", "s", "n"]), rng.choice(ZK_STATES)))
             tags.add("random-state")
     return "zk %d %d %s" % (1 if conn0 else 0, len(evs), " ".join("%s %s" % e for e in evs)), sorted(tags)
+
+
+# ---- isolated scenarios (one child process each): a failing Unlock(), a stalled storage request -------------------
+
+def _iso_mods(rng, positive):
+    for _ in range(50):
+        mods = gen_mods(rng)
+        exp = shortest_configured(mods)
+        if exp is None or exp > 100000 or exp < (1 if positive else 0):
+            continue
+        return mods, exp
+    m = _m(1, "null", 30, None, None)
+    return [m], 30
+
+
+def gen_cfg_unlock_error(rng, idx):
+    """Expiry, then lock.Unlock() fails (go-zk: the ephemeral node went with the expired session) -- at the first cycle
+    or after one or two complete expiry / release / re-acquire cycles.  Afterwards the clock moves on so that every
+    group is due: HEAD panics (nothing is issued any more); a loop that carries on without the lock evaluates."""
+    mods, mi = _iso_mods(rng, False)
+    src = rng.choice(["set", "toml"])
+    now = T0 + rng.randrange(0, 10**6) * MS
+    ids = rng.sample(range(1, 10), rng.randrange(1, 4))
+    groups = [(g, now - mi * NS - 1 - rng.choice([0, 1, NS])) for g in sorted(ids)]
+    tags = set(["unlock-error"] + cfg_tags(mods))
+    evs = []
+    now0 = now
+    if rng.random() < 0.2:
+        evs.append(("e",)); tags.add("lockerr")
+    evs.append(("k", now))
+    cycles = rng.choice([0, 0, 1, 1, 2])
+    tags.add("unlock-error@cycle%d" % (cycles + 1))
+    for _ in range(cycles):
+        now += rng.choice([1, mi * NS // 2 + 1, mi * NS + 1])
+        evs.append(("t", now))
+        evs.append(("x",))
+        if rng.random() < 0.5:
+            now += mi * NS + 1
+            evs.append(("t", now))
+        now += rng.choice([0, 1, mi * NS + 1])
+        evs.append(("k", now))
+    now += rng.choice([1, mi * NS + 1])
+    evs.append(("t", now))
+    evs.append(("x",))
+    now += mi * NS + 1 + rng.choice([0, 5, NS])
+    evs.append(("ue", now))
+    now += 1
+    evs.append(("t", now))
+    now += mi * NS + 2
+    evs.append(("t", now))
+    return cfg_line(src, "/burrow", False, mods, now0, groups, evs), sorted(tags)
+
+
+def gen_cfg_storage_stall(rng, idx):
+    """One refresh whose storage request is not taken off App.StorageChannel within the 1 s timeout (cluster list: mode
+    c; first consumer list: mode g), listing exactly the known groups; then a normal refresh (draws at the upper end of
+    their range, so that a record that was lost and re-created is due at once) and ticks.  HEAD: a stalled refresh
+    leaves every record untouched."""
+    mods, mi = _iso_mods(rng, True)
+    src = rng.choice(["set", "toml"])
+    now = T0 + rng.randrange(0, 10**6) * MS
+    ids = sorted(rng.sample(range(1, 10), rng.randrange(2, 5)))
+    groups = [(g, now - mi * NS - 1 - rng.choice([0, 1, NS])) for g in ids]
+    mode = rng.choice(["c", "g"])
+    tags = set(["storage-stall", "storage-stall:" + ("cluster-list" if mode == "c" else "consumer-list")] + cfg_tags(mods))
+    now0 = now
+    evs = [("k", now)]
+    now += mi * NS + 1
+    evs.append(("t", now))                     # every group evaluated a second time: LastEval = now
+    if rng.random() < 0.4:
+        evs.append(("r", now, [(g, rng.randrange(0, mi * 1000)) for g in ids]))
+        tags.add("refresh-before")
+    lst = [(g, mi * 1000 - 1) for g in ids]
+    rng.shuffle(lst)
+    evs.append(("rs", now, mode, list(lst)))
+    if rng.random() < 0.5:
+        tags.add("stall-then-tick")
+        now += mi * NS + 1
+        evs.append(("t", now))                 # all due: a wiped record is missing here
+    evs.append(("r", now, list(lst)))
+    now += 2 * MS
+    evs.append(("t", now))                     # a re-created record (LastEval = now - (mi s - 1 ms)) is due here
+    now += mi * NS // 2
+    evs.append(("t", now))
+    return cfg_line(src, "/burrow", False, mods, now0, groups, evs), sorted(tags)
+
+
+FIXED_ISO = [
+    # interval 30: lock, evaluate, expiry, Unlock fails, 31 s later everything is due
+    cfg_line("set", "/burrow", False, [_m(1, "null", 30, 300, None)], T0, [(1, T0 - 31 * NS)],
+             [("k", T0), ("t", T0 + NS), ("x",), ("ue", T0 + 32 * NS), ("t", T0 + 32 * NS + 1), ("t", T0 + 63 * NS)]),
+    # interval 5: evaluated at T and T+5s+1ns, the cluster list request stalls, a normal refresh, 2 ms later
+    cfg_line("set", "/burrow", False, [_m(1, "null", 5, None, None)], T0, [(1, T0 - 6 * NS), (2, T0 - 6 * NS)],
+             [("k", T0), ("t", T0 + 5 * NS + 1), ("rs", T0 + 5 * NS + 1, "c", [(1, 4999), (2, 4999)]),
+              ("r", T0 + 5 * NS + 1, [(1, 4999), (2, 4999)]), ("t", T0 + 5 * NS + 1 + 2 * MS)]),
+    cfg_line("toml", "/burrow", False, [_m(1, "null", 5, None, None)], T0, [(1, T0 - 6 * NS), (2, T0 - 6 * NS), (3, T0 - 6 * NS)],
+             [("k", T0), ("t", T0 + 5 * NS + 1), ("rs", T0 + 5 * NS + 1, "g", [(1, 4999), (2, 4999), (3, 4999)]),
+              ("t", T0 + 10 * NS + 2), ("r", T0 + 10 * NS + 2, [(1, 4999), (2, 4999), (3, 4999)]), ("t", T0 + 10 * NS + 2 + 2 * MS)]),
+]
